@@ -60,9 +60,20 @@ class ConstantFolder(BlockPass):
                 and value.ty.is_integer
                 and self.is_const(value.a)
                 and self.is_const(value.b)
+                and self.is_defined(value)
             )
         else:
             return False
+
+    def is_defined(self, value):
+        """Leave undefined operations (remainder by zero, shift count out
+        of range) to run time instead of failing on them here"""
+        if value.operation in ("%", "<<", ">>"):
+            b = self.eval_const(value.b).value
+            if value.operation == "%":
+                return b != 0
+            return 0 <= b < value.ty.bits
+        return True
 
     def eval_const(self, value):
         """Evaluate expression, and return a new const instance"""
